@@ -179,6 +179,7 @@ inline ExecResult run_one(const Scenario& sc, const std::vector<unsigned char>& 
     sh->user[2] = 0;
     sh->user[3] = sc.post_points ? 1 : 0;
     sh->user[4] = sc.stateful ? 1 : 0;
+    sh->user[5] = getenv("VS_DBG") ? 1 : 0;
     if (prefix.size() > VS_MAXPREFIX) {
         vh::out_line("ERROR prefix too long");
         exit(2);
